@@ -1,6 +1,7 @@
 (* Property C13 - bad frames are rejected, never recorded or buffered, end the recording
    cleanly. *)
 From Coq Require Import List ZArith Bool.
+From TR Require Import model.GoSem model.Socket model.ConnExt translated.ConnLoop proofs.TieConn proofs.TieConnCorollaries.
 From TR Require Import model.Ring model.Detector model.Parse model.Processor model.ProcAbs model.ProcSpec
      proofs.ParseProofs proofs.ProcS1217.
 (* constants and wiring read from the Go sources on every run *)
@@ -77,3 +78,46 @@ Theorem C13_source_tie : forall c fm fc ft evs,
     1 <= p_size c ->
     src_psteps c fm fc ft evs = psteps c fm fc ft evs.
 Proof. exact src_psteps_eq. Qed.
+
+(* ---- source tie: the wiring, as cmd/thermal-recorder/main.go builds it now ----
+   coq/translated/ConnLoop.v is handleConn regenerated from the Go source on every run; proofs/TieConn.v proves the
+   log it produces for every connection (header, any stream, any script of Process results), and the wiring part of
+   that log has the shape below: ONE processor, given the parser frameParser chose; as motion recorder the file
+   recorder whose Stop is deferred, wrapped by the throttle exactly when it is activated; a continuous recorder of
+   its own exactly when configured; and for test recordings a plain file recorder of its own - not shared with the
+   motion or the continuous recorder, never throttled. *)
+Theorem C13_source_handleConn : forall cfg cs script i1 i2 fuel text rest h,
+  header_c (S (total_len cs)) cs [] = Some (text, rest) ->
+  c_decode cfg text = Some h ->
+  parser_of (h_brand h) (h_model h) <> 0 ->
+  5 <= h_fs h -> h_fps h <> 0 -> i1 <> 0 -> i2 <> 0 ->
+  (total_len rest < fuel)%nat ->
+  post (src_conn cfg fuel (conn_init cs script i1 i2))
+    (fun r w' =>
+       r = Some (end_err (S (total_len rest)) (Z.to_nat (h_fs h)) rest) /\ cw_in w' = [] /\
+       cw_log w' = prelude_log cfg (parser_of (h_brand h) (h_model h)) ++
+                   loop_log (proc_tok cfg) (frames_c (S (total_len rest)) (Z.to_nat (h_fs h)) rest) script ++
+                   [EStop REC_TOK]).
+Proof. exact tie_handleConn. Qed.
+
+Theorem C13_source_wiring : forall cfg parser,
+  let l := prelude_log cfg parser in
+  exists rec const snap tok,
+    filter (fun e => match e with ENewProcessor _ _ _ _ _ => true | _ => false end) l =
+      [ENewProcessor parser rec const snap tok] /\
+    In (ENewRecorder snap) l /\ snap <> REC_TOK /\ snap <> rec /\ snap <> const /\
+    ~ In (ESetConstant snap) l /\ (forall m t, ~ In (ENewThrottle snap m t) l) /\
+    (if c_throttle cfg then In (ENewThrottle REC_TOK (c_minsecs cfg + c_preview cfg) rec) l else rec = REC_TOK) /\
+    (if c_const cfg then In (ENewRecorder const) l /\ In (ESetConstant const) l /\ const <> REC_TOK /\ const <> rec
+     else const = 0) /\
+    hd_error l = Some (EAutoFFC true).
+Proof. exact wiring_facts. Qed.
+
+(* the parser handleConn hands to the processor is the library's Lepton parser for lepton3 / lepton3.5 and
+   convertRawBosonFrame for boson (nothing in between that could swallow a BadFrameErr), and the frame loop answers
+   every bad frame with exactly one event and one camera restart and goes on with the next frame *)
+Theorem C13_source_parser : forall cfg b m brand model w,
+  vget w b = VStr brand -> vget w m = VStr model ->
+  post (ConnLoop_fn_frameParser (cext cfg) b m w)
+       (fun r w' => r = parser_of brand model /\ exists extra, w' = set_vals w (cw_vals w ++ extra)).
+Proof. exact tie_frameParser. Qed.
